@@ -1,1 +1,179 @@
-// harnesses for this module (included by the isomer_erbium_verif hook)
+// Kani harnesses for crates/erbium-core/src/lldp/lldppkt.rs (C05: LLDP frames never crash the decoder).
+// Skeleton approach: every length field is enumerated over boundary values (concrete per instance),
+// every other octet is symbolic.
+#[cfg(kani)]
+mod k {
+    use super::super::*;
+    include!(concat!(env!("ISOMER_ERBIUM_VERIF_DIR"), "/_common.rs"));
+
+    // ManagementAddress payload of N octets; first octet (address-string length) = A, everything else symbolic
+    // except the OID length octet, which is set to O if it lies inside the buffer.
+    fn mgmt<const N: usize>(a: u8, o: u8) {
+        let mut d: [u8; N] = kani::any();
+        if N > 0 {
+            d[0] = a;
+        }
+        // oid length octet position when the address length is accepted: 1(len) + 1(af) + (a-1) + 1 + 4
+        let pos = 2usize + (a as usize).saturating_sub(1) + 5;
+        if pos < N {
+            d[pos] = o;
+        }
+        let mut b = pktparser::Buffer::new(&d);
+        let r = ManagementAddress::from_wire(&mut b);
+        if let Ok(m) = &r {
+            assert!(m.address.len() == a as usize - 1 && (1..=32).contains(&m.address.len()), "address length as declared and within 1..=32");
+            assert!(m.oid.len() == o as usize, "oid length as declared");
+        }
+        kani::cover!(true, "reached");
+        std::mem::forget(r);
+    }
+
+    /// VERIF: {"p":"C05","tier":"quick","fns":["lldp::lldppkt::ManagementAddress::from_wire","pktparser::Buffer::{get_u8,get_bytes,get_be32}"],"bounds":"management-address TLV payloads of 0,1,2,12,14 octets; address-length octet in {0,1,2,5,33,34,255}; OID length octet in {0,1,2,255}; all other octets symbolic","oracle":"Ok or Err: no panic, no integer underflow on the length arithmetic, no out-of-bounds","stubs":["alloc::fmt::format -> empty string (error text only)"],"covers":1,"unwind":8}
+    #[kani::proof]
+    #[kani::unwind(8)]
+    #[kani::stub(alloc::fmt::format, empty_format)]
+    fn c05_lldp_mgmt_addr_lengths() {
+        let a = match kani::any::<u8>() % 7 {
+            0 => 0u8,
+            1 => 1,
+            2 => 2,
+            3 => 5,
+            4 => 33,
+            5 => 34,
+            _ => 255,
+        };
+        let o = match kani::any::<u8>() % 4 {
+            0 => 0u8,
+            1 => 1,
+            2 => 2,
+            _ => 255,
+        };
+        match kani::any::<u8>() % 5 {
+            0 => mgmt::<0>(a, o),
+            1 => mgmt::<1>(a, o),
+            2 => mgmt::<2>(a, o),
+            3 => mgmt::<12>(a, o),
+            _ => mgmt::<14>(a, o),
+        }
+    }
+
+    // One TLV: type octet T (7-bit type << 1 | length bit 8), length octet L, N payload octets available.
+    fn tlv<const N: usize>(t: u8, l: u8) {
+        let mut d: [u8; N] = kani::any();
+        if N > 0 {
+            d[0] = t;
+        }
+        if N > 1 {
+            d[1] = l;
+        }
+        let mut b = pktparser::Buffer::new(&d);
+        let r = LldpTlv::from_wire(&mut b);
+        if r.is_ok() {
+            assert!(2 + l as usize <= N, "an accepted TLV lies inside the frame");
+        }
+        kani::cover!(true, "reached");
+        std::mem::forget(r);
+    }
+
+    // all lengths concrete per instance (symbolic-length Vec copies are out of reach for CBMC); contents symbolic
+    fn tlv_ty(sel: u8) -> u8 {
+        let ty = match sel % 7 {
+            0 => 0u8,
+            1 => 1,
+            2 => 2,
+            3 => 3,
+            4 => 7,
+            5 => 127,
+            _ => 9,
+        };
+        (ty << 1) | (kani::any::<u8>() & 1)
+    }
+
+    /// VERIF: {"p":"C05","tier":"quick","fns":["lldp::lldppkt::LldpTlv::from_wire","lldp::lldppkt::{ChassisId,PortId,Ttl,SystemCapabilities,OrganizationSpecific,UnknownTlv}::from_wire","lldp::lldppkt::{ChassisIdType,PortIdType}::from_wire"],"bounds":"single TLV in an 8-octet frame, type in {0,1,2,3,7,127,9(unknown)} with both values of the 9th length bit, declared length in {0,1,2,3,4,5,6,7(past the end)}; all payload octets symbolic","oracle":"Ok or Err: no panic; an accepted TLV lies inside the frame","stubs":["alloc::fmt::format -> empty string (error text only)"],"covers":1,"unwind":10}
+    #[kani::proof]
+    #[kani::unwind(10)]
+    #[kani::stub(alloc::fmt::format, empty_format)]
+    fn c05_lldp_tlv_binary_types() {
+        let t = tlv_ty(kani::any());
+        match kani::any::<u8>() % 8 {
+            0 => tlv::<8>(t, 0),
+            1 => tlv::<8>(t, 1),
+            2 => tlv::<8>(t, 2),
+            3 => tlv::<8>(t, 3),
+            4 => tlv::<8>(t, 4),
+            5 => tlv::<8>(t, 5),
+            6 => tlv::<8>(t, 6),
+            _ => tlv::<8>(t, 7),
+        }
+    }
+
+    /// VERIF: {"p":"C05","tier":"quick","fns":["lldp::lldppkt::LldpTlv::from_wire"],"bounds":"truncated frames of 0,1,2,3 octets holding a TLV header that declares 0, 1 or 2 payload octets, types as in c05_lldp_tlv_binary_types","oracle":"Ok or Err: no panic","stubs":["alloc::fmt::format -> empty string (error text only)"],"covers":1,"unwind":10}
+    #[kani::proof]
+    #[kani::unwind(10)]
+    #[kani::stub(alloc::fmt::format, empty_format)]
+    fn c05_lldp_tlv_truncated() {
+        let t = tlv_ty(kani::any());
+        match kani::any::<u8>() % 8 {
+            0 => tlv::<0>(t, 0),
+            1 => tlv::<1>(t, 0),
+            2 => tlv::<2>(t, 0),
+            3 => tlv::<2>(t, 1),
+            4 => tlv::<3>(t, 1),
+            5 => tlv::<3>(t, 2),
+            6 => tlv::<2>(t, 2),
+            _ => tlv::<3>(t, 0),
+        }
+    }
+
+    /// VERIF: {"p":"C05","tier":"quick","fns":["lldp::lldppkt::LldpTlv::from_wire","lldp::lldppkt::{PortDescription,SystemName,SystemDescription}::from_wire","alloc::string::String::from_utf8"],"bounds":"text TLVs (types 4,5,6) with declared length 0..=3 inside a 5-octet frame, text octets symbolic (any byte values, valid or invalid UTF-8)","oracle":"Ok or Err: no panic","stubs":["alloc::fmt::format -> empty string"],"covers":1,"unwind":8}
+    #[kani::proof]
+    #[kani::unwind(8)]
+    #[kani::stub(alloc::fmt::format, empty_format)]
+    fn c05_lldp_tlv_text_types() {
+        let ty = (4 + kani::any::<u8>() % 3) << 1;
+        match kani::any::<u8>() % 4 {
+            0 => tlv::<5>(ty, 0),
+            1 => tlv::<5>(ty, 1),
+            2 => tlv::<5>(ty, 2),
+            _ => tlv::<5>(ty, 3),
+        }
+    }
+
+    fn packet<const N: usize>(x: [u8; 3]) {
+        let full: [u8; 9] = [3 << 1, 2, x[0], x[1], 9 << 1, 1, x[2], 0, 0];
+        let mut d = [0u8; N];
+        let mut i = 0;
+        while i < N {
+            d[i] = full[i];
+            i += 1;
+        }
+        let mut b = pktparser::Buffer::new(&d);
+        let r = LldpPacket::from_wire(&mut b);
+        kani::cover!(N < 9 || r.is_ok(), "complete frame accepted");
+        match &r {
+            Ok(p) => assert!(N == 9 && p.tlvs.len() == 3, "only the complete frame is accepted"),
+            Err(_) => assert!(N < 9, "every truncation is rejected"),
+        }
+        std::mem::forget(r);
+    }
+
+    /// VERIF: {"p":"C05","tier":"quick","fns":["lldp::lldppkt::LldpPacket::from_wire","lldp::lldppkt::LldpTlv::from_wire"],"bounds":"every truncation point 0..=9 of the 9-octet frame [TTL(2 octets), unknown type 9 (1 octet), End]; TTL and unknown payload symbolic","oracle":"Ok only if an End TLV was reached, otherwise Err; never panics, loop terminates","stubs":["alloc::fmt::format -> empty string"],"covers":1,"unwind":12}
+    #[kani::proof]
+    #[kani::unwind(12)]
+    #[kani::stub(alloc::fmt::format, empty_format)]
+    fn c05_lldp_packet_truncations() {
+        let x: [u8; 3] = kani::any();
+        match kani::any::<u8>() % 10 {
+            0 => packet::<0>(x),
+            1 => packet::<1>(x),
+            2 => packet::<2>(x),
+            3 => packet::<3>(x),
+            4 => packet::<4>(x),
+            5 => packet::<5>(x),
+            6 => packet::<6>(x),
+            7 => packet::<7>(x),
+            8 => packet::<8>(x),
+            _ => packet::<9>(x),
+        }
+    }
+}
